@@ -319,7 +319,7 @@ fn valid_response(rng: &mut Rng) -> Vec<u8> {
 
 const BLOWUPS: &[&[u8]] = &[
     b"2147483648", b"4294967296", b"9223372036854775807", b"9223372036854775808", b"18446744073709551615", b"18446744073709551616",
-    b"1000000000000000000000000000000", b"ffffffffffffffff", b"7fffffffffffffff", b"10000000000000000", b"FFFFFFFFFFFFFFFFF", b"80000000", b"-1", b"0",
+    b"1000000000000000000000000000000", b"ffffffffffffffff", b"7fffffffffffffff", b"10000000000000000", b"FFFFFFFFFFFFFFFFF", b"80000000", b"-1", b"0", b"500000000", b"100000000", b"1073741825",
 ];
 
 fn mutate(rng: &mut Rng, wire: &mut Vec<u8>) -> &'static str {
